@@ -180,6 +180,27 @@ theorem table_stats_follow_error (env : Env) (t : Table) (f : UFault) (size : Ro
   have : (embedded env (.table t) f size now).err = e := h1
   rw [this]
 
+/-- Where the scan looks at the deadline: only after a row it has DELIVERED
+    (`guard.ProceedAfter(onValue(..))` in rowStore.iterate / combinedOnValue).  A scan that finds
+    only file rows mapping none of the requested columns (and nothing in the memstore) calls
+    nobody, consults no guard and ends with nil error and statistics 1/1 even under an expired
+    deadline — and that empty result IS the complete answer (`t.rows = []`), so nothing is
+    presented as complete that is not. -/
+theorem only_skipped_rows_no_error (cfg : Cfg) (h15 : cfg.d15 = true) (dl : Option Nat) (t : Table)
+    (hf : ∀ x, x ∈ t.file → x.2 = false) (hm : t.includeMem = false ∨ t.mem = []) (hco : t.co = none)
+    (f : UFault) (size : Row → Nat) (now : Nat) :
+    (embedded ⟨cfg, dl⟩ (.table t) f size now).rows = [] ∧
+    (embedded ⟨cfg, dl⟩ (.table t) f size now).err = none ∧
+    (embedded ⟨cfg, dl⟩ (.table t) f size now).stats = some ⟨1, 1, []⟩ ∧ t.rows = [] := by
+  have hrows : t.rows = [] := by
+    unfold Table.rows
+    have h1 : t.file.filter (·.2) = [] := List.filter_eq_nil_iff.mpr (fun x hx => by simp [hf x hx])
+    rcases hm with h | h <;> simp [h1, h]
+  refine ⟨?_, ?_, ?_, hrows⟩ <;>
+  · simp only [embedded, iterate, tableIterate, coalescedScan, hco]
+    cases cfg.coalesce <;>
+      simp [fileStore_all_skipped cfg h15 t _ _ now hf hm]
+
 /-! ## Cluster queries: the partition is listed -/
 
 /-- A cluster query that returns no error: every partition either delivered all its rows to the
@@ -504,6 +525,16 @@ example :
                           events := [.msg 0 false, .msg 1 false, .msg 0 false, .msg 1 false, .tick 50, .timeout], unflat := false }
     let o := embedded ⟨Cfg.fixed, none⟩ (.cluster cl) .none noSize 0
     o.rows = [pr 0 1, pr 1 3] ∧ o.err = none ∧ o.stats = some ⟨2, 1, [1]⟩ := by decide
+
+/-- an already expired deadline: rows without any requested column are skipped in silence
+    (complete, empty, no error), rows with an EMPTY requested column are delivered, so the guard
+    behind the first of them reports the deadline -/
+example :
+    let t0 : Table := { file := [(⟨1, 0, [], 0⟩, false), (⟨2, 0, [], 0⟩, false)], mem := [], includeMem := true, oomAt := none, co := none }
+    let t1 : Table := { file := [(⟨1, 0, [], 0⟩, true), (⟨2, 0, [], 0⟩, true)], mem := [], includeMem := true, oomAt := none, co := none }
+    let q (t : Table) := embedded ⟨Cfg.fixed, some 0⟩ (.flatten (fun x => x.vals.map (fun v => { x with vals := [v] })) (.group ⟨id, false⟩ (.table t))) .none noSize 1
+    (q t0).rows = [] ∧ (q t0).err = none ∧ (q t0).stats = some ⟨1, 1, []⟩ ∧
+    (q t1).rows = [] ∧ (q t1).err = some .deadline ∧ (q t1).stats = some ⟨1, 0, []⟩ := by decide
 
 /-- LIMIT: the source is stopped after n rows, no error, not told -/
 example :
